@@ -74,7 +74,7 @@ def run_c11(tier):
                 'change) and of b (a must not change); composite arrays: extend() by messages then mutation of the originals; '
                 'a case = (type, a, b); non-trivial = a holds a nested message or an array.')
     chk.lean = core.lean_obligations('C11', thorough=(tier == 'thorough'))
-    corpus = Corpus(chk, chk.scale(40, 400), dict(n_decls=8, floats=False))
+    corpus = Corpus(chk, chk.scale(40, 400), dict(n_decls=8, floats=False, shifts=True))
     try:
         reqs = corpus.deft_requests()
         nd = len(reqs)
